@@ -11,7 +11,7 @@ CHECKS = {
     "C11": {
         "level": "exploration",
         "groups": [
-            {"name": "c11", "run": "^TestC11_", "shards": {"quick": 4, "thorough": 16},
+            {"name": "c11", "run": "^TestC11_", "shards": {"quick": 8, "thorough": 16},
              "timeout": {"quick": 600, "thorough": 3000},
              "fuzz": ["FuzzC11WT", "FuzzC11Decode"], "fuzztime": 120,
              "checks": ["c11-single", "c11-payload", "c11-wt-frame", "c11-arbitrary-bytes", "c11-wt-alloc"]},
@@ -28,7 +28,7 @@ CHECKS = {
     "C09": {
         "level": "exploration",
         "groups": [
-            {"name": "c09", "run": "^TestC09_", "shards": {"quick": 4, "thorough": 16},
+            {"name": "c09", "run": "^TestC09_", "shards": {"quick": 8, "thorough": 16},
              "timeout": {"quick": 600, "thorough": 3000},
              "fuzz": ["FuzzC09"], "fuzztime": 180,
              "checks": ["c09-roundtrip", "c09-stream"]},
@@ -70,7 +70,7 @@ CHECKS = {
     "C17": {
         "level": "exploration",
         "groups": [
-            {"name": "c17", "run": "^TestC17_", "shards": {"quick": 4, "thorough": 16},
+            {"name": "c17", "run": "^TestC17_", "shards": {"quick": 8, "thorough": 16},
              "timeout": {"quick": 600, "thorough": 3000},
              "checks": ["c17-matrix", "c17-ids", "c17-close"]},
         ],
